@@ -30,6 +30,7 @@ func propC02() Property {
 			{ID: "C02-R8", Desc: "every store: save-and-increment = save (nil) then increment, or one transaction (= C16-R6)", Min: 4, Run: c16R6},
 			{ID: "C02-R9", Desc: "file store: the bytes under n stay retrievable — appended at the end, indexed where written (= C17-R2)", Min: 3, Run: c17R2},
 			{ID: "C02-R12", Desc: "the reset-sent flag is set only by a reset Logon going out and consulted before a second reset (= C07-R3)", Min: 4, Run: c07R3},
+			{ID: "C02-R14", Desc: "a reset removes every stored file of the old epoch (= C16-R13)", Min: 2, Run: c16R13},
 			{ID: "C02-R13", Desc: "file counters are rewritten in place at fixed width (= C17-R3)", Min: 3, Run: c17R3},
 			{ID: "C02-R11", Desc: "every store reset runs inside the send critical section", Min: 2, Run: c02R11},
 			{ID: "C02-R10", Desc: "sql: cached counter updated only after Commit returned nil (= C17-R4)", Min: 4, Run: c17R4},
